@@ -22,20 +22,22 @@ const modPath = "github.com/go-openapi/runtime"
 
 // Prog is the loaded program.
 type Prog struct {
-	Dir      string
-	Fset     *token.FileSet
-	Pkgs     []*packages.Package
-	ByPath   map[string]*packages.Package
-	SSA      *ssa.Program
-	SPkg     map[string]*ssa.Package
-	allTy    map[string]*types.Package // every types.Package reachable through imports
-	Cfg      string                    // description of the build configuration
-	fnIdx    map[string]*ssa.Function  // short name -> function (repo functions incl. anonymous)
-	ntStores map[string][]ssa.Value
-	allFns   []*ssa.Function // every repo function with a body (incl. anonymous, incl. instantiations)
-	astFn    map[*ssa.Function]ast.Node
-	cg       *callgraph.Graph
-	ti       *transInfo
+	Dir        string
+	Fset       *token.FileSet
+	Pkgs       []*packages.Package
+	ByPath     map[string]*packages.Package
+	SSA        *ssa.Program
+	SPkg       map[string]*ssa.Package
+	allTy      map[string]*types.Package // every types.Package reachable through imports
+	Cfg        string                    // description of the build configuration
+	fnIdx      map[string]*ssa.Function  // short name -> function (repo functions incl. anonymous)
+	ntStores   map[string][]ssa.Value
+	novelty    map[*ssa.Function]bool
+	noveltyWhy map[*ssa.Function]string
+	allFns     []*ssa.Function // every repo function with a body (incl. anonymous, incl. instantiations)
+	astFn      map[*ssa.Function]ast.Node
+	cg         *callgraph.Graph
+	ti         *transInfo
 }
 
 type toolError struct{ msg string }
@@ -553,4 +555,150 @@ func (p *Prog) newTypeFieldStores(tn, field string) []ssa.Value {
 		}
 	}
 	return p.ntStores[tn+"."+field]
+}
+
+func (p *Prog) namedTypeLines() []string {
+	var out []string
+	for _, pkg := range p.SSA.AllPackages() {
+		if pkg.Pkg == nil || !isRepoPath(pkg.Pkg.Path()) || isFixturePkg(pkg.Pkg.Path()) {
+			continue
+		}
+		sc := pkg.Pkg.Scope()
+		for _, name := range sc.Names() {
+			tn, ok := sc.Lookup(name).(*types.TypeName)
+			if !ok || strings.HasSuffix(p.Fset.Position(tn.Pos()).Filename, "_test.go") {
+				continue
+			}
+			out = append(out, fmt.Sprintf("\t%q: true,", short(pkg.Pkg.Path())+"."+name))
+		}
+	}
+	sort.Strings(out)
+	return out
+}
+
+func (p *Prog) globalLines() []string {
+	var out []string
+	for _, pkg := range p.SSA.AllPackages() {
+		if pkg.Pkg == nil || !isRepoPath(pkg.Pkg.Path()) || isFixturePkg(pkg.Pkg.Path()) {
+			continue
+		}
+		sc := pkg.Pkg.Scope()
+		for _, name := range sc.Names() {
+			v, ok := sc.Lookup(name).(*types.Var)
+			if !ok || strings.HasSuffix(p.Fset.Position(v.Pos()).Filename, "_test.go") {
+				continue
+			}
+			out = append(out, fmt.Sprintf("\t%q: true,", short(pkg.Pkg.Path())+"."+name))
+		}
+	}
+	sort.Strings(out)
+	return out
+}
+
+// involvesNovelty: f (with the helpers it is looked through into, and its function literals) is, calls, or mentions a
+// function, named type or package-level variable of the library that the baseline inventory does not know.
+func (p *Prog) involvesNovelty(f *ssa.Function) bool {
+	if len(inventory) == 0 || len(typeInventory) == 0 {
+		return false
+	}
+	if p.novelty == nil {
+		p.novelty = map[*ssa.Function]bool{}
+		p.noveltyWhy = map[*ssa.Function]string{}
+	}
+	if v, ok := p.novelty[f]; ok {
+		return v
+	}
+	p.novelty[f] = false
+	why := ""
+	novelFn := func(g *ssa.Function) bool {
+		if g == nil || g.Blocks == nil || g.Synthetic != "" || !isRepoPath(fnPkgPath(g)) || isFixturePkg(fnPkgPath(g)) || p.isTestFn(g) {
+			return false
+		}
+		// function literals are numbered, not named: one more or one less literal in a function renumbers them all,
+		// so a literal is as novel as the named function it sits in
+		for g.Parent() != nil {
+			g = g.Parent()
+		}
+		return !inventory[short(g.String())]
+	}
+	var novelType func(t types.Type, depth int) string
+	novelType = func(t types.Type, depth int) string {
+		if t == nil || depth > 3 {
+			return ""
+		}
+		switch x := t.(type) {
+		case *types.Named:
+			if x.Obj() != nil && x.Obj().Pkg() != nil && isRepoPath(x.Obj().Pkg().Path()) && !isFixturePkg(x.Obj().Pkg().Path()) {
+				if n := typeFullName(x); !typeInventory[n] {
+					return n
+				}
+			}
+		case *types.Pointer:
+			return novelType(x.Elem(), depth+1)
+		case *types.Slice:
+			return novelType(x.Elem(), depth+1)
+		case *types.Array:
+			return novelType(x.Elem(), depth+1)
+		case *types.Map:
+			if s := novelType(x.Key(), depth+1); s != "" {
+				return s
+			}
+			return novelType(x.Elem(), depth+1)
+		}
+		return ""
+	}
+	root := f
+	for root.Parent() != nil {
+		root = root.Parent()
+	}
+	if novelFn(f) || novelFn(root) {
+		why = "function " + short(f.String())
+	}
+	fns := withClosures(f)
+	for _, g := range fns {
+		if why != "" {
+			break
+		}
+		for _, in := range instrs(g) {
+			if ci, ok := in.(ssa.CallInstruction); ok {
+				if sc := ci.Common().StaticCallee(); novelFn(sc) {
+					why = "function " + short(sc.String())
+					break
+				}
+				if ci.Common().IsInvoke() {
+					if s := novelType(ci.Common().Value.Type(), 0); s != "" {
+						why = "type " + s
+						break
+					}
+				}
+			}
+			if v, ok := in.(ssa.Value); ok {
+				if s := novelType(v.Type(), 0); s != "" {
+					why = "type " + s
+					break
+				}
+			}
+			for _, op := range in.Operands(nil) {
+				if op == nil || *op == nil {
+					continue
+				}
+				if gl, ok := (*op).(*ssa.Global); ok && gl.Pkg != nil && isRepoPath(gl.Pkg.Pkg.Path()) && !isFixturePkg(gl.Pkg.Pkg.Path()) && !strings.HasPrefix(gl.Name(), "init$") {
+					if !globalInventory[short(gl.Pkg.Pkg.Path())+"."+gl.Name()] {
+						why = "package variable " + short(gl.Pkg.Pkg.Path()) + "." + gl.Name()
+						break
+					}
+				}
+				if fn2, ok := (*op).(*ssa.Function); ok && novelFn(fn2) && fn2.Parent() == nil {
+					why = "function " + short(fn2.String())
+					break
+				}
+			}
+			if why != "" {
+				break
+			}
+		}
+	}
+	p.novelty[f] = why != ""
+	p.noveltyWhy[f] = why
+	return why != ""
 }
